@@ -45,6 +45,10 @@
 //	List => exactly the real (non-symlink) sub-directories of the root (as a set); nothing run
 //	    or changed outside them.
 //
+// Pre-states of the tree: the plugin installed among neighbours and decoys, absent, or ALONE (the
+// plugin directory is the only entry of the root and the root the only entry of each ancestor up
+// to the case directory), so that whatever is done to an emptied container shows in the snapshot.
+//
 // Evidence only ("recorded:" outcome classes, never a violation): what config.AddPlugin and the
 // verifier make of the manager's refusal, a stale "found" answer for a plugin that is gone,
 // duplicates in a listing, plugins run by List, files created directly in the root.
@@ -1866,7 +1870,7 @@ type job struct {
 
 func main() {
 	r := hx.New("C16")
-	r.Rule = "every element of (name of the grammar) x (plugin root 1..4 levels below the scratch base) x (plugin directory pre-installed | absent) x (Get+GetMetadata, Uninstall, Install from file/directory with and without overwrite, SigningKeys.AddPlugin, Verify JWS/COSE with the real CLIManager) is run once on a freshly built real directory tree with sentinel executables at every location a plain or cleaned join of (root, name, notation-name) or a sloppy normalisation of the name denotes, plus a fixed ring of decoys; List: every subset of 8 directory-entry kinds x depth; histories: every sequence of 2 (quick) / 2..3 (thorough) steps over a 9-step alphabet plus 10 named longer ones, on ONE CLIManager object shared with a verifier, for control / odd / unacceptable names x pre-state, every step judged on its own (marker delta and snapshot difference of that step). Non-trivial = unacceptable name with at least one name-specific sentinel/witness really placed outside <root>/<name> (a mis-resolution would be observed), or acceptable name for which the real code executed a sentinel or changed <root>/<name>; List: a root mixing real directories with entries that must not be listed; every history."
+	r.Rule = "every element of (name of the grammar) x (plugin root 1..4 levels below the scratch base) x (plugin directory pre-installed among neighbours and decoys | absent | alone: the only entry of the root, the root the only entry of each ancestor) x (Get+GetMetadata, Uninstall, Install from file/directory with and without overwrite, SigningKeys.AddPlugin, Verify JWS/COSE with the real CLIManager) is run once on a freshly built real directory tree with sentinel executables at every location a plain or cleaned join of (root, name, notation-name) or a sloppy normalisation of the name denotes, plus a fixed ring of decoys; List: every subset of 8 directory-entry kinds x depth; histories: every sequence of 2 (quick) / 2..3 (thorough) steps over a 9-step alphabet plus 10 named longer ones, on ONE CLIManager object shared with a verifier, for control / odd / unacceptable names x pre-state, every step judged on its own (marker delta and snapshot difference of that step). Non-trivial = unacceptable name with at least one name-specific sentinel/witness really placed outside <root>/<name> (a mis-resolution would be observed), or acceptable name for which the real code executed a sentinel or changed <root>/<name>; List: a root mixing real directories with entries that must not be listed; every history."
 	r.Assumptions = []string{
 		"Linux path semantics (the only separator is '/'); the scratch tree holds no symbolic links except in the List family",
 		"reads without side effects (stat/open of a file outside the root that is neither executed nor changed) are not observable and not judged",
